@@ -77,11 +77,106 @@ func (s *State) Clone() *State {
 type Heap struct {
 	sc    *Script
 	sorts map[string]Sort // array name -> sort
+	etype map[string]types.Type // Go type of the values a component holds (innermost element), where known
 	// elemType remembers the Go type stored in a component where known (for load-time facts).
 	epochN int
 }
 
-func NewHeap(sc *Script) *Heap { return &Heap{sc: sc, sorts: map[string]Sort{}} }
+func NewHeap(sc *Script) *Heap {
+	return &Heap{sc: sc, sorts: map[string]Sort{}, etype: map[string]types.Type{}}
+}
+
+// NoteType records the Go type of the values held in a component (used for representation invariants).
+func (h *Heap) NoteType(name string, t types.Type) {
+	if _, ok := h.etype[name]; !ok && t != nil {
+		h.etype[name] = t
+	}
+}
+
+// valueFact is the representation invariant of a value of Go type t (as an SMT formula over v), or "".
+func valueFact(t types.Type, v string, top string) string {
+	t = types.Unalias(t)
+	if lo, hi, ok := IntRange(t); ok {
+		return fmt.Sprintf("(and (<= %s %s) (<= %s %s))", BigLit(lo).S, v, v, BigLit(hi).S)
+	}
+	switch t.Underlying().(type) {
+	case *types.Pointer, *types.Map, *types.Chan, *types.Signature:
+		return fmt.Sprintf("(and (<= 0 %s) (<= %s %s))", v, v, top)
+	case *types.Slice:
+		return fmt.Sprintf("(and (wf-slice %s) (<= (s-arr %s) %s))", v, v, top)
+	case *types.Interface:
+		if _, isTP := t.(*types.TypeParam); isTP {
+			return ""
+		}
+		return fmt.Sprintf("(and (<= 0 (i-typ %s)) (=> (= (i-typ %s) 0) (= (i-val %s) 0)))", v, v, v)
+	}
+	return ""
+}
+
+// baseFacts states, for a freshly introduced version of a component, that every value stored in it satisfies the
+// representation invariant of its Go type (references point to objects that already exist).
+func (h *Heap) baseFacts(name string, arr Term, top Term) {
+	t, ok := h.etype[name]
+	if !ok {
+		return
+	}
+	sort := string(arr.Sort)
+	depth := 0
+	switch {
+	case strings.HasPrefix(sort, "(Array Int (Array "):
+		depth = 2
+	case strings.HasPrefix(sort, "(Array Int "):
+		depth = 1
+	default:
+		if f := valueFact(t, arr.S, top.S); f != "" {
+			h.sc.Assume(T(f, SBool))
+		}
+		return
+	}
+	if strings.HasPrefix(name, "MapDom.") {
+		return
+	}
+	h.sc.n++
+	i := fmt.Sprintf("hi?%d", h.sc.n)
+	if depth == 1 {
+		sel := fmt.Sprintf("(select %s %s)", arr.S, i)
+		if f := valueFact(t, sel, top.S); f != "" {
+			h.sc.Assume(T(fmt.Sprintf("(forall ((%s Int)) (! %s :pattern (%s)))", i, f, sel), SBool))
+		}
+		return
+	}
+	// (Array Int (Array K V))
+	inner := sort[len("(Array Int "): len(sort)-1] // (Array K V)
+	parts := splitSortArgs(inner)
+	if len(parts) != 2 {
+		return
+	}
+	k := fmt.Sprintf("hk?%d", h.sc.n)
+	sel := fmt.Sprintf("(select (select %s %s) %s)", arr.S, i, k)
+	if f := valueFact(t, sel, top.S); f != "" {
+		h.sc.Assume(T(fmt.Sprintf("(forall ((%s Int) (%s %s)) (! %s :pattern (%s)))", i, k, parts[0], f, sel), SBool))
+	}
+}
+
+// splitSortArgs splits "(Array K V)" into K and V.
+func splitSortArgs(s string) []string {
+	s = strings.TrimPrefix(s, "(Array ")
+	s = strings.TrimSuffix(s, ")")
+	depth := 0
+	for i := 0; i < len(s); i++ {
+		switch s[i] {
+		case '(':
+			depth++
+		case ')':
+			depth--
+		case ' ':
+			if depth == 0 {
+				return []string{s[:i], s[i+1:]}
+			}
+		}
+	}
+	return nil
+}
 
 func (h *Heap) register(name string, sort Sort) {
 	if old, ok := h.sorts[name]; ok {
@@ -99,7 +194,13 @@ func (h *Heap) Get(s *State, name string, sort Sort) Term {
 	if t, ok := s.heap[name]; ok {
 		return t
 	}
-	return h.sc.Declare(fmt.Sprintf("%s@%d", sanitize(name), s.epoch), sort)
+	bn := fmt.Sprintf("%s@%d", sanitize(name), s.epoch)
+	fresh := !h.sc.declared[bn]
+	t := h.sc.Declare(bn, sort)
+	if fresh {
+		h.baseFacts(name, t, s.top)
+	}
+	return t
 }
 
 func (h *Heap) Set(s *State, name string, t Term) {
@@ -120,7 +221,9 @@ func (h *Heap) Havoc(s *State, name string) {
 	if !ok {
 		return
 	}
-	s.heap[name] = h.sc.FreshConst(sanitize(name)+"@h", sort)
+	t := h.sc.FreshConst(sanitize(name)+"@h", sort)
+	s.heap[name] = t
+	h.baseFacts(name, t, s.top)
 }
 
 func (h *Heap) Names() []string {
